@@ -336,8 +336,9 @@ def world_order_cases(ctx):
     rng = ctx.rng
     cases = []
     for i in range(14 if ctx.quick() else 150):
-        w = worlds.gen_world(rng, n_layers=rng.choice([3, 4, 5]), tests_per_layer=(1, 4), kinds=["pass"], p_fault=0.0,
-                             p_write=0.0)
+        # (tests that fail or raise change nothing about which layers run, and in which order, without -x)
+        w = worlds.gen_world(rng, n_layers=rng.choice([3, 4, 5]), tests_per_layer=(1, 4),
+                             kinds=["pass"] if i % 2 == 0 else ["pass", "error", "fail", "pass"], p_fault=0.0, p_write=0.0)
         non_unit = [l for l in w["layers"] if l["kind"] != "unit"]
         for l in non_unit:
             l["setUp"] = l["tearDown"] = True
